@@ -256,10 +256,15 @@ def c02(ctx):
     ctx.technique = "TLC-evaluated bindings of the successful path (spec/Semantics.tla) replayed into Compile/Run"
     cases = ctx.gen_cases("C02")
     ctx.replay("C02-exhaustive", cases, FIELDS["C02"])
+    # bindings scoped by named loops (per-iteration maps, abandoned iterations)
+    ctx.replay("C02-named-loops", ctx.gen_cases("C02N"), FIELDS["C02"])
 
 
-RULES["C03"] = ("all match-producing cases of the C01/C02/C04 scopes with the full match record compared and the "
-                "implementation's own output re-checked against the input bytes (MatchWF)")
+RULES["C03"] = ("all cases of the C01 and C02 scopes, 120 named-loop programs (nested variable maps) and a third of the C14 regex "
+                "scope, with the full match record (offsets, numbers, lines, columns, value, variables) compared with the "
+                "specification's and the implementation's own output re-checked against the input bytes (MatchWF: slice, "
+                "order, no overlap, consecutive numbers, line/column, variables substrings of the value); non-trivial = the "
+                "specification expects at least one match")
 
 
 @check("C03")
@@ -268,6 +273,17 @@ def c03(ctx):
     for fam in ("C01", "C02"):
         cases = ctx.gen_cases(fam)
         ctx.replay(fam + "-records", cases, FIELDS["C03"])
+    # named loops: spans/locations as the unnamed loop; nested variable maps checked by MatchWF only
+    ctx.replay("C03-named-loops", ctx.gen_cases("C03N"), ["spans", "num", "loc", "val", "wf", "panic"])
+    # regex literals: the conventional semantics of spec/Regex.tla, full records
+    d = ctx.scratch.sub("rxgen")
+    out, st0 = vlib.run_tlc(d, "RegexScope", "CONSTANT OutFile = \"cases.ndjson\"\nCONSTANT Tier = \"quick\"\n", workers=1, timeout=300, heap="2g")
+    with open(os.path.join(d, "cases.ndjson")) as f:
+        rcases = [json.loads(l) for l in f if l.strip()]
+    rcases = [c for c in rcases if c["id"] % 3 == 0]
+    docs, st = run_sharded_machine(ctx, "EvalRegex", rcases, ["TranslationAgrees", "Emit"])
+    ctx.add_mc("EvalRegex", st, "translation = conventional semantics on a third of the regex scope")
+    ctx.replay("C03-regex-literals", rcases, FIELDS["C03"], exps=docs)
 
 
 RULES["C04"] = ("bodies whose occurrences can overlap or abut x every amount clause with s,t,n in 0..4 (quick) "
